@@ -214,7 +214,7 @@ def setup_profile():
     if left:
         ival[0] = float(left)
     right = input("right [µm] (currently '{}'): ".format(ival[1]))
-    if left:
+    if right:
         ival[1] = float(right)
     pf["range_x"] = list(ival*1e-6)
 
